@@ -7,5 +7,6 @@ CONSTANTS
   PublishAtomic = TRUE
   UnrefIsValid = TRUE
   InitMayFail = FALSE
+  IsValidSync = FALSE
 SYMMETRY Sym
 INVARIANTS TypeOK NoRaceButInited Mutex OnceOnly InitComplete InitVisible RefBalance StateIffCount UseValid FullLength Distinct CreateOk Final
